@@ -27,6 +27,9 @@ def clean():
 
 
 def find_demo():
+    d0 = os.path.join(change, "demo")
+    if os.path.isdir(d0) and (os.path.exists(os.path.join(d0, "Cargo.toml")) or os.path.exists(os.path.join(d0, "check.sh")) or os.path.exists(os.path.join(d0, "run.sh"))):
+        return d0
     for root, dirs, files in os.walk(change):
         if "Cargo.toml" in files and "target" not in root:
             return root
@@ -34,6 +37,10 @@ def find_demo():
 
 
 def run_demo(demo):
+    for script in ("check.sh", "run.sh"):
+        if os.path.exists(os.path.join(demo, script)):
+            rc, out = sh("bash %s" % script, cwd=demo)
+            return rc, out[-1500:]
     # prefer `cargo test` if there are tests, else `cargo run`
     has_main = os.path.exists(os.path.join(demo, "src", "main.rs"))
     cmd = "cargo run --offline -q" if has_main else "cargo test --offline -q"
